@@ -187,6 +187,9 @@ func merge(p pair) []expFile {
 			for _, u := range s.Uses {
 				uses[u] = true
 			}
+			for _, u := range s.SigUses {
+				uses[u] = true
+			}
 			if s.Linkname != "" {
 				linknameLeft = true
 			}
@@ -211,6 +214,7 @@ func merge(p pair) []expFile {
 						if fl.sig {
 							ns.Recv, ns.RecvPtr, ns.RecvArgs = fl.sigSpec.Recv, fl.sigSpec.RecvPtr, fl.sigSpec.RecvArgs
 							ns.TParams, ns.Sig = fl.sigSpec.TParams, fl.sigSpec.Sig
+							ns.SigUses = nil // the new signature refers to no import
 						}
 						keepFunc(ns)
 						continue
